@@ -47,7 +47,8 @@ def cases(draw, rot=0):
         'incfile': draw(st.booleans()),
         # older output files: none / unrelated contents / the -o file already holds exactly this program (a rebuild), the others stale
         'old': draw(st.sampled_from([False, True, True, 'same'])),
-        'incname': draw(st.sampled_from(['inc', 'inc', 'inc:v2', 'my inc'])), 'tags': prog.tags, 'verbose': draw(st.integers(0, 3)) == 0,
+        'incname': draw(st.sampled_from(['inc', 'inc', 'inc:v2', 'my inc'])),
+        'irel': draw(st.booleans()),      # the -i directory given relative to the working directory 'tags': prog.tags, 'verbose': draw(st.integers(0, 3)) == 0,
     }
 
 
@@ -88,7 +89,7 @@ def judge(c, res):
         argv = [main_arg]
         if c['compress']:
             argv.insert(0, '-c')
-        argv = ['-i', incdir] + argv
+        argv = ['-i', os.path.relpath(incdir, work) if c.get('irel') else incdir] + argv
         if c['o'] != 'default':
             argv = ['-o', c['o']] + argv
         if c['l']:
